@@ -157,7 +157,7 @@ def roundtrip_validio(cid, table):
     target = io.StringIO(newline="")
     writer = cutplace.Writer(cid, target)
     try:
-        writer.write_rows(table)
+        writer.write_rows(iter(table))
     finally:
         writer.close()
     text = target.getvalue()
@@ -173,7 +173,7 @@ def roundtrip_path(cid, table):
         path = os.path.join(folder, "table.csv")
         writer = rowio.DelimitedRowWriter(path, cid.data_format)
         try:
-            writer.write_rows(table)
+            writer.write_rows(row for row in table)  # rows may come from any iterable, here one without a length
         finally:
             writer.close()
         with open(path, "rb") as written:
@@ -248,7 +248,7 @@ def _shrink(cid_for, config, table, via, function, signature):
         found = attempt(cid_for(len(candidate[0])), config, candidate, via, function)
         return found is not None and found[0] == signature
 
-    changed = True
+    changed = bool(table)
     while changed:
         changed = False
         for index in range(len(table)):
